@@ -155,6 +155,29 @@ type Case struct {
 	Runs    []Run  `json:"runs"`
 	// every run is started with the directory above the entry packages as working directory (not the module root)
 	FromSubdir bool `json:"started_in_a_sub_directory,omitempty"`
+	// an Execute over ANOTHER module failed in this process just before (one generator rendered, the next one
+	// returned an error: nothing of that run was written)
+	AfterFailedRun bool `json:"after_a_failed_execute_in_the_same_process,omitempty"`
+}
+
+// failedRunBefore: an Execute that fails after a generator rendered something that is never written.
+func failedRunBefore(c *core.Ctx) {
+	dir := pipe.TempDir("c07f")
+	defer os.RemoveAll(dir)
+	_ = pipe.WriteTree(dir, pipe.Tree{
+		"go.mod":   pipe.GoMod("x.io/failing", "1.24"),
+		"f1/f1.go": "package f1\n\ntype T struct{}\n\ntype Bad struct{}\n",
+		"f2/f2.go": "package f2\n\ntype T struct{}\n",
+	})
+	o := pipe.Exec(pipe.Spec{Dir: dir, Entrypoints: []string{"./f1", "./f2"}, Globals: map[string][]string{"gengo:g1": {"true"}, "gengo:g2": {"true"}},
+		Gens: []pipe.GenScript{
+			{Name: "g1", Default: pipe.Action{Render: "var LeftOverFromFailedRun_$T_$G = 1\n"}},
+			{Name: "g2", Default: pipe.Action{Render: "var LeftOverFromFailedRun_$T_$G = 2\n"}, ByType: map[string]pipe.Action{"x.io/failing/f1.Bad": {Ret: "error"}}},
+		}})
+	c.Trans(1)
+	if o.Err == "" {
+		c.Internal("the run before was meant to fail: %+v", o)
+	}
 }
 
 func dirOfPkg(path string) string { return strings.TrimPrefix(strings.TrimPrefix(path, modPath), "/") }
@@ -170,6 +193,9 @@ func checkCase(c *core.Ctx, cs Case) {
 	}
 	c.Eval(1)
 	c.Trace(1)
+	if cs.AfterFailedRun {
+		failedRunBefore(c)
+	}
 	for ri, r := range cs.Runs {
 		before, err := pipe.ReadTree(dir)
 		if err != nil {
@@ -411,6 +437,16 @@ func run(c *core.Ctx) {
 		}
 	}
 	c.Bound("force", "one-run histories and second runs with Force set, All on and off")
+	// one-run histories right after an Execute (over another module) that failed part-way in this process
+	for _, b1 := range behaviours {
+		for _, b2 := range behaviours {
+			if !c.Next() {
+				continue
+			}
+			checkCase(c, Case{Base: "zz_generated", Subsets: []int{0, 1<<nPre - 1, 1 << 4}, Runs: []Run{{b1, b2, false, false}}, AfterFailedRun: true})
+		}
+	}
+	c.Bound("after_a_failed_execute_in_the_same_process", "all behaviour pairs, one-run histories")
 	// two-run histories (previous outputs produced by the real system)
 	for _, all1 := range []bool{false, true} {
 		for _, all2 := range []bool{false, true} {
